@@ -48,6 +48,14 @@ def cli_part(tier, res):
     space = tq.enumerate_series(3, 1, allow_after_failure=1) if tier == 'quick' else tq.enumerate_series(3, 2, allow_after_failure=1)
     series = [s for s in space if wsweep.tags_of(s) & set(rel) and len(s) >= 2]
     series = series[::3] if tier == 'quick' else series[::12]   # every 3rd / 12th series of the filtered space (the spaces are 3.6 k / 92 k series)
+    # one file under two spellings (a -p0 entry saying ./name): still one name, one worker
+    dotted = []
+    for s in [x for x in space if len(x) >= 2 and len({f for p in x for fp in p.fps for f in fp.files}) < sum(len(fp.files) for p in x for fp in p.fps)][::(7 if tier == 'quick' else 3)][:200]:
+        for i in range(len(s)):
+            v = [tq.Patch(p.fps, p.reverse, p.strip, p.empty) for p in s]
+            v[i] = tq.Patch(s[i].fps, s[i].reverse, 'dot', s[i].empty)
+            dotted.append(v)
+    series = series + dotted
     tasks = [(m0, s, n) for s in series for n in ((2, 3) if tier == 'quick' else (2, 3, 4))]
     runs = multi = 0
     for t, r in zip(tasks, wsweep.pmap(cli_case, tasks)):
